@@ -37,6 +37,7 @@ var zoneNames = []string{
 	"UTC", "America/New_York", "Europe/London", "Australia/Lord_Howe", "Asia/Kathmandu", "Pacific/Apia",
 	"America/Sao_Paulo", "Africa/Monrovia", "Pacific/Kiritimati", "Asia/Tehran", "Europe/Amsterdam", "Europe/Dublin",
 	"Africa/Casablanca", "Asia/Kolkata", "America/St_Johns", "Antarctica/Troll", "America/Caracas", "Africa/Kigali",
+	"America/Santiago", "America/Havana", "America/Asuncion", "America/Bogota", "Asia/Beirut",
 }
 
 var dateFormats = []envs.DateFormat{envs.DateFormatYearMonthDay, envs.DateFormatMonthDayYear, envs.DateFormatDayMonthYear}
@@ -469,7 +470,19 @@ func runDates(o *hx.Opts, res *hx.Result, r *hx.Rand) {
 				if k == 1 {
 					judge = judgeFmt
 				}
-				if class, detail := judge(b); class != "" {
+				class, detail := judge(b)
+				if _, eoff := b.In(e.loc).Zone(); class != "" && k == 1 && eoff%60 != 0 {
+					// a field keeps its datetime as marshalled and read back (FormatISO): in a zone whose offset has
+					// seconds that drops them, the known defect of the ISO form
+					c2, d2 := judge(b.Add(-time.Duration(eoff%60) * time.Second))
+					if c2 == "" {
+						class, detail = "iso-datetime-roundtrip:zone-offset-seconds-dropped", fmt.Sprintf("stored as %s, %ds away from the instant the text reads as (zone offset %ds)", b.Format(time.RFC3339Nano), eoff%60, eoff)
+					} else {
+						// two defects at once: what remains once the dropped seconds are put back
+						class, detail = c2, d2+" (after putting back the seconds the stored form dropped)"
+					}
+				}
+				if class != "" {
 					res.Fail(class, input, fmt.Sprintf("FieldValues.Parse(%q).Datetime: %s", txt, detail))
 				}
 			}
@@ -510,12 +523,19 @@ func runDates(o *hx.Opts, res *hx.Result, r *hx.Rand) {
 	// --- arbitrary date/time texts: ToXDateTime / ToXDate / ToXTime (correspondence of the parsers, no oracle)
 	tr := r.Fork("datetexts")
 	nt := o.Count(500, 20000)
-	for i := 0; i < len(dtCorpus)+nt; i++ {
+	for i := 0; i < len(corpus)+len(dtCorpus)+nt; i++ {
 		e := genEnv(tr, zones, false)
-		e.activate()
 		var s string
-		if i < len(dtCorpus) {
-			s = dtCorpus[i]
+		if i < len(corpus) {
+			// a date-only text naming a day without a local midnight (ISO and environment format alternate)
+			e = corpus[i].e
+			xd := types.NewXDateTime(corpus[i].t).Date()
+			s = xd.Render()
+			if i%2 == 1 {
+				s = xd.Format(e.env)
+			}
+		} else if i < len(corpus)+len(dtCorpus) {
+			s = dtCorpus[i-len(corpus)]
 		} else {
 			t, _ := genInstant(tr, e.loc, e.loc)
 			x := types.NewXDateTime(t)
@@ -533,6 +553,7 @@ func runDates(o *hx.Opts, res *hx.Result, r *hx.Rand) {
 				s = mutateDateText(tr, s)
 			}
 		}
+		e.activate()
 		input := map[string]any{"kind": "datetime-text", "text": s, "env": e.describe()}
 		res.Eval("dtext:"+s+e.loc.String()+string(e.df), true)
 		var back *time.Time
